@@ -102,6 +102,30 @@ func (match4Engine) Run(ctx *fw.Ctx, cs any) {
 			datas = append(datas, p.Bytes())
 		}
 	}
+	// (1a) requests that ARE answered, each with a fresh draw of the options no table row depends on (vendor
+	// classes of PXE and HTTP-boot firmware with their machine identifiers, sizes, host names, ...), with and
+	// without a client identifier / relay information of their own
+	for k := 0; k < 240; k++ {
+		xid++
+		mac := []byte{2, 0, 0, 0, 3, byte(k)}
+		p := pkt.Request4(xid, mac, []byte{1, 3}[k%2])
+		if k%3 == 0 {
+			p.Opts = append(p.Opts, pkt.O4(61, 1, 2, 0, 0, 0, 3, byte(k)))
+		}
+		p.Opts = append(p.Opts, noise4(rng, k%4 == 0, false)...)
+		if k%5 == 0 {
+			p.Opts = append(p.Opts, pkt.O4(55, 1, 3, 6, 60, 66, 67, 97))
+		}
+		switch k % 4 {
+		case 0:
+			p.Gi = pkt.IP4("10.9.9.9")
+		case 1:
+			p.Flags = 0x8000
+		case 2:
+			p.Ci = pkt.IP4("10.77.0.77")
+		}
+		datas = append(datas, p.Bytes())
+	}
 	// (1b) systematic shapes: every hardware-address length, echoed options of every boundary length,
 	// options split over several instances (RFC 3396), long parameter lists
 	for _, mt := range []byte{1, 3} {
